@@ -481,6 +481,16 @@ def verify (rplay : Play) (play : Play) : Except Err Unit :=
         | some items => revokedLoop hashOf d items
         | none => .error .crash
       else .error .verr
+/-- one call of `verify` in a process: the revocation document it finds and the play it is given -/
+structure Call where
+  rplay : Play
+  play : Play
+
+/-- what a process that verifies one play after the other answers (`__main__` loops over the plays of a
+playbook): the verifier keeps no state, every answer is `verify` of that call -/
+def runHistory (calls : List Call) : List (Except Err Unit) :=
+  calls.map (fun c => verify H sigDecodes sigValid hashOf c.rplay c.play)
+
 end Verify
 
 end IV.Playbook
